@@ -40,19 +40,16 @@ theorem probe_ok {b : List Nat} {strict : Bool} {g : Geometry} (hb : IsSector b)
     rw [this] at hg
     cases hg; rfl
 
+/-- after the repairs every failure of `probe` is `CorruptedFileSystem` -/
 theorem probe_error {b : List Nat} {strict : Bool} {e : Err} (hb : IsSector b)
-    (h : probe b strict = .error e) :
-    e = .corrupted ∨ (e = .panic ∧
-      (4294967296 ≤ (Bpb.deserialize b).fats * (Bpb.deserialize b).sectorsPerFat ∨
-       4294967296 ≤ (Bpb.deserialize b).fdsNat ∨
-       4294967296 ≤ (Bpb.deserialize b).sectorsPerFat * (Bpb.deserialize b).bytesPerSector * 8)) := by
+    (h : probe b strict = .error e) : e = .corrupted := by
   have hr := deserialize_inRange hb
   unfold probe probeBoot at h
   rw [ebind_eq_error] at h
   rcases h with hv | ⟨_, hv, hg⟩
   · unfold BootSector.validate at hv
     by_cases hs : strict = true ∧ (BootSector.deserialize b).bootSig ≠ [0x55, 0xAA]
-    · rw [if_pos hs] at hv; cases hv; exact Or.inl rfl
+    · rw [if_pos hs] at hv; cases hv; rfl
     · rw [if_neg hs] at hv
       exact validate_error hr hv
   · exfalso
